@@ -29,3 +29,5 @@ register_object("BeaconVersion", {"version": "str", "tuple": "any", "date": "any
 
 register_object("HttpDataTransform", {"tsteps": "mlist[tuple[str,any]]", "rsteps": "mlist[tuple[str,any]]"},
                 "dissect.cobaltstrike.c2")
+
+register_object("HttpBeaconClient", {"task_map": "any", "beacon_id": "any", "counter": "int", "pid": "any"}, "dissect.cobaltstrike.client")
